@@ -9,7 +9,7 @@ CLAIMS = {
         "sample dimension of that same (augmented) matrix; V is VT conjugate-transposed in both SVD wrappers, reconstruction "
         "contracts with conj(components) and projection with plain components (EOF, SparsePCA, ExtendedEOF); the ascending svds "
         "branch re-sorts U, s, VT by one descending argsort and every truncation keeps a prefix; scores=U*s, norms=s, components=V; "
-        "Hilbert and Extended variants reach the same routine. ExtendedEOF's inner EOF centres the embedded matrix and applies neither standardisation nor latitude weights again; the exponential padding added before the Hilbert transform is cut off again under the same condition, keeping [n, 2n). No accessor rescales the stored components / scores in place.",
+        "Hilbert and Extended variants reach the same routine. ExtendedEOF's inner EOF centres the embedded matrix and applies neither standardisation nor latitude weights again; the exponential padding added before the Hilbert transform is cut off again under the same condition, keeping [n, 2n). No accessor rescales the stored components / scores in place. The delay-embedded matrix keeps exactly N - (embedding - 1) * tau rows (slice stop compared as a polynomial normal form).",
         "note": "Necessary structural clauses only. Not decided: orthonormality, eigenvalue equality with an independent solver, "
         "Eckart-Young optimality, accuracy of the randomised path, Hilbert transform arithmetic. Trusted: np.linalg.svd descending / "
         "svds ascending order, default ddof=0.",
@@ -21,7 +21,7 @@ CLAIMS = {
         "stage the inverse reads what the forward wrote for the same role: Stacker stack/unstack and rename pairs on sample_name/feature_name with "
         "dims_mapping, Dataset variable-level name, dispatch on the stored type name, dimension order restored on every unstack path; Concatenator "
         "splits with the offsets it concatenated with and re-attaches the recorded coordinates; MultiIndexConverter records/restores exactly the "
-        "converted dimensions with the right reference per inverse; DimensionRenamer inverts its own mapping. List items reach xr.concat with their own sample labels and are joined by label (no override join, raw-array concatenation or sample relabelling); the two MultiIndex coordinate stores are distinct objects; the MultiIndex inverse re-attaches the labels and rebuilds the index. The level names recorded for a serialised MultiIndex coordinate are the index's own names.",
+        "converted dimensions with the right reference per inverse; DimensionRenamer inverts its own mapping. List items reach xr.concat with their own sample labels and are joined by label (no override join, raw-array concatenation or sample relabelling); the two MultiIndex coordinate stores are distinct objects; the MultiIndex inverse re-attaches the labels and rebuilds the index. The level names recorded for a serialised MultiIndex coordinate are the index's own names. Stacker.transform stacks with the dimension lists recorded at fit; mappings keyed by the stringified list position are walked in insertion or numeric order.",
         "note": "Necessary structural clauses only. Not decided: value-at-label equality, xarray's stack/unstack behaviour for exotic indexes, sortedness "
         "after unstack. Label paths for unseen data are decided under C05, NaN re-insertion under C06.",
         "technique": "call-sequence extraction against a table literal, writer/reader agreement by provenance, match-dispatch comparison",
@@ -31,7 +31,7 @@ CLAIMS = {
         "by the inverted operator under the same flag, once, with the mean removed first and restored last; every def-use path of data through "
         "the stage objects of the single- and cross-set families respects preprocessor -> pca -> whitener forward and the reverse back, never "
         "crosses fields, and public results leave through the preprocessor's inverse; PCA/whitener score maps are identities; every "
-        "'normalized' switch divides in score-producing directions and multiplies in the others by the per-mode norms of the same field. Whitener un-whitening uses Tinv with the conjugation of T (PCA: V and V^H); every 'normalized' switch is either applied to a per-mode norm or handed on. No accessor rescales stored arrays in place; in functions serving both fields the switch acts on both; arrays computed from a coordinate carry their own name (so that the serialiser does not store them as that coordinate).",
+        "'normalized' switch divides in score-producing directions and multiplies in the others by the per-mode norms of the same field. Whitener un-whitening uses Tinv with the conjugation of T (PCA: V and V^H); every 'normalized' switch is either applied to a per-mode norm or handed on. No accessor rescales stored arrays in place; in functions serving both fields the switch acts on both; arrays computed from a coordinate carry their own name (so that the serialiser does not store them as that coordinate). The whitening kernel's outputs are labelled T: (feature, mode), Tinv: (mode, feature).",
         "note": "Necessary structural clauses only. Not decided: the numerical round-trip identity, SparsePCA/POP approximations.",
         "technique": "affine-map extraction by provenance + guard analysis, stage-chain order typing over def-use paths, field-index typing",
     },
@@ -40,7 +40,7 @@ CLAIMS = {
         "whitener pattern map are patterns and may not serve as projection weights, and the number of forward stages on the data matches the basis of "
         "the components; the cross rotator stores its vectors in whitened PC space; every per-mode factor the rotators' fit applies to the model's "
         "score chain and stores (singular values, norms, sign) is applied by transform with the same operator, per field; no list accumulator "
-        "initialised before a loop is rebound inside it (positive fixture fires each run). Rotator transform re-sorts its projections exactly as _sort_by_variance re-sorts the stored entries. What reaches the projection / prediction algorithm has passed every forward stage of its field; rotated vectors are lowered through both pattern inverses before the rotation; fit and transform agree on the per-mode factors in both directions; every result is re-sorted; no accessor rescales stored arrays in place.",
+        "initialised before a loop is rebound inside it (positive fixture fires each run). Rotator transform re-sorts its projections exactly as _sort_by_variance re-sorts the stored entries. What reaches the projection / prediction algorithm has passed every forward stage of its field; rotated vectors are lowered through both pattern inverses before the rotation; fit and transform agree on the per-mode factors in both directions; every result is re-sorted; no accessor rescales stored arrays in place. The rotators' transform rotates projections with the inverse conjugate transpose obtained through the shared helper (as fit does).",
         "note": "Necessary structural clauses only. Not decided: numerical equality, tolerance, sign identity as values. Field-index and stage-order "
         "clauses of transform are decided under C03/C09; the rotation-matrix pairing under C11; label paths under C05.",
         "technique": "pattern/weight and basis typing of dot-product operands from stage provenance, fit-vs-transform factor agreement by source signatures, AST lint with fixture",
@@ -59,7 +59,7 @@ CLAIMS = {
         "isolated-NaN predicate (count in {0, number of valid features}), the returned array is where(features & samples, drop=True); the coordinate "
         "identity check raises and dominates the mask computation; fit goes through transform; the three inverse maps reindex the right dimension to "
         "the right remembered coordinates and scores/components/inverse_transform of every concrete model reach them; the cross-set fit is checked for "
-        "a joint treatment of both fields' valid samples (known finding: absent). Per-item sample deletions of list input are reconciled by label at concatenation.",
+        "a joint treatment of both fields' valid samples (known finding: absent). Per-item sample deletions of list input are reconciled by label at concatenation. The rotator's sample count is that of the decomposed matrix.",
         "note": "Necessary structural clauses only. Not decided: equality with the model fitted on reduced data; NaN-freeness of values. Known "
         "finding CROSS.joint recorded in known_findings.json.",
         "technique": "guard/raise role analysis by provenance of the guard condition, dominators, call-graph reachability",
@@ -68,7 +68,7 @@ CLAIMS = {
         "text": "Every module, function and call site of xeofs is enumerated: no dimension is addressed through the "
         "literals 'sample'/'feature' (constants, keywords, attribute access), no callee with a literal dimension "
         "default is called without the configured names, and Stacker canonicalises to (sample_name, feature_name). "
-        "This is the necessary structural clause of naming-independence; exhaustive over the finite site space. List items are aligned by sample label whatever order each stores its samples in; Stacker inverses change labels only by rename / unstack. Rotated loadings return to model space pca -> whitener (label-based products pair labels of the same space).",
+        "This is the necessary structural clause of naming-independence; exhaustive over the finite site space. List items are aligned by sample label whatever order each stores its samples in; Stacker inverses change labels only by rename / unstack. Rotated loadings return to model space pca -> whitener (label-based products pair labels of the same space). Per-element bookkeeping keyed '0', '1', ... is walked in list order.",
         "note": "Decides the NAMES clauses only. Not decided: numerical invariance under permutations/partitions, sign "
         "determinism as values. Trusted: ast, the class/constructor-flow resolver, the one table exemption (Scaler.dims keys).",
         "technique": "AST lint over resolved program (literal dimension designators, call-site default binding, constructor-parameter flow)",
@@ -78,7 +78,7 @@ CLAIMS = {
         "same meaning (element [i] for field i of cross-set models) and, inside the Preprocessor, the Scaler/Sanitizer keyword; in Scaler.fit/transform/"
         "inverse each flag guards exactly its own fitted factor and every factor acts once; user weights reach Scaler.weights_ unchanged through "
         "entry point -> Preprocessor -> iter_kwargs['weights'] -> per-item fit(**{k: v[i]}) for the right field and no other stage; mean_/std_ are "
-        "reductions over the sample dimensions; latitude weights are sqrt(cos(deg2rad(lat)).clip(0,1)) of a feature dimension. The user's weights reach the scaler with their own labels (no re-labelling, re-indexing or raw-value access on the way).",
+        "reductions over the sample dimensions; latitude weights are sqrt(cos(deg2rad(lat)).clip(0,1)) of a feature dimension. The user's weights reach the scaler with their own labels (no re-labelling, re-indexing or raw-value access on the way). Between sqrt(cos(lat)) and the stored factor the latitude weights pass label operations only.",
         "note": "Necessary structural clauses only. Not decided: the invariances themselves, the 1.2e-7 clipping floor, latitude-name detection beyond the lookup.",
         "technique": "interprocedural constructor-parameter flow, guard-to-operation pairing, def-use provenance through dict/loop forwarding",
     },
@@ -98,7 +98,7 @@ CLAIMS = {
         "pair the property fixes, does not accept alpha, drops it from the stored parameters, and resolves every method of "
         "its general class to the same function (C3 MRO, 12 class pairs incl. MCA rotators); alpha[i] reaches whitener i; "
         "all eight Whitener/PCA maps return their argument untouched on the identity branch; n_modes='all' resolves to the rank; "
-        "an interval analysis of the delay-embedding slice bound shows no 'slice(None, -0)'. ExtendedEOF's inner EOF does not repeat standardisation / weighting (embedding=1 equals EOF); named classes forward every shared option to the general class.",
+        "an interval analysis of the delay-embedding slice bound shows no 'slice(None, -0)'. ExtendedEOF's inner EOF does not repeat standardisation / weighting (embedding=1 equals EOF); named classes forward every shared option to the general class. With a single embedding the sample cut keeps all samples for every delay (polynomial normal form).",
         "note": "Necessary structural clauses only. Not decided: SparsePCA(no penalty)=EOF, MCA(X,X)=EOF, Complex(real)=real, "
         "multi-set vs cross-set CCA (numerical coincidences). Trusted: constructor-flow resolver, documented domains embedding>=1, tau>=0.",
         "technique": "constructor-parameter flow + C3 MRO comparison + guard/return analysis + interval abstract interpretation of a slice bound",
@@ -120,7 +120,7 @@ CLAIMS = {
         "containers and attributes of helper objects carry taint; metadata accessors cleanse): every certainly-materialising operation "
         "(.values, .item(), compute/load, float/int/bool, truth value of an array, np.asarray, equals/identical, dropna, where(drop=True), "
         "np.linalg.eig, assignment into numpy buffers) on lazy data must be control-dependent on a compute/check_nans flag somewhere on the call "
-        "path or lie after an 'if use_dask: raise'; input data entries are stored with allow_compute=False and both compute() methods filter on it. Inner models / solvers take their compute and check_nans flags from the outer model; in every branch chain that tests for dask-backed data, what one branch assigns and is used afterwards every falling-through branch assigns (no post-processing for one kind of array only). No container is built from the entries of another one (the constructor resets allow_compute).",
+        "path or lie after an 'if use_dask: raise'; input data entries are stored with allow_compute=False and both compute() methods filter on it. Inner models / solvers take their compute and check_nans flags from the outer model; in every branch chain that tests for dask-backed data, what one branch assigns and is used afterwards every falling-through branch assigns (no post-processing for one kind of array only). No container is built from the entries of another one (the constructor resets allow_compute). No flag is read from self.attrs (re-encoded in place by every fit; premise checked).",
         "note": "Necessary structural clauses only. Not decided: equality with the in-memory fit, scheduler independence, what dask's own routines "
         "do. multi.CCA scoped out (refuses dask input). Known findings: OPA (.dropna) and POP (eig, buffer loop) - see known_findings.json. "
         "Trusted: frozen table of materialising operations and of metadata accessors.",
@@ -131,7 +131,7 @@ CLAIMS = {
         "literal, update, item assignment, pop) is closed under cls(**params); sklearn-style transformers store every constructor "
         "parameter under its name; every attribute assigned outside __init__ and read on a post-fit path is serialised; every marker "
         "literal a deserialiser reads is written by a serialiser; the netCDF attribute codec has no unguarded constant subscript on a "
-        "possibly empty string and no unhandled literal_eval (positive fixture fires on every run). Deserialised container attributes are distinct objects; the netCDF attribute codec is applied to node-level and variable-level attributes in both directions, written back under the key read. Arrays computed from a coordinate are named; recorded MultiIndex levels are the index's own; deserialisation entry points run no finalising hook.",
+        "possibly empty string and no unhandled literal_eval (positive fixture fires on every run). Deserialised container attributes are distinct objects; the netCDF attribute codec is applied to node-level and variable-level attributes in both directions, written back under the key read. Arrays computed from a coordinate are named; recorded MultiIndex levels are the index's own; deserialisation entry points run no finalising hook. List transformers are rebuilt in list order (position-keyed mapping walked in insertion or numeric order).",
         "note": "Necessary structural clauses only. Not decided: value identity of results after a round trip; the real netCDF/zarr "
         "engines. Known finding: GWPCA constructor closure (see known_findings.json).",
         "technique": "key-set abstract interpretation of constructor chains, writer/reader literal agreement, guard (try/except, emptiness) analysis",
@@ -142,7 +142,7 @@ CLAIMS = {
         "compute of every concrete model and persistent transformer shows no attribute that fit rewrites being read before it is rebuilt; "
         "transform-written attributes are not read by fitted-data accessors; arrays read from another model's container or the caller's inputs never "
         "reach DataContainer.add or an in-place assignment without an intervening fresh object; borrowed stage objects are never re-fitted; mutable "
-        "defaults are never mutated. No two attributes of an object are bound to one mutable container (any method, directly or through a local); query methods do not modify stored results in place. No memo (cached_property / lru_cache) of a value derived from fitted state survives a refit.",
+        "defaults are never mutated. No two attributes of an object are bound to one mutable container (any method, directly or through a local); query methods do not modify stored results in place. No memo (cached_property / lru_cache) of a value derived from fitted state survives a refit. No configuration is read from self.attrs, which every fit re-encodes in place.",
         "note": "Necessary structural clauses only. Not decided: bit-identical equality with a fresh model. Trusted: which operations return fresh "
         "objects (any xarray/numpy method call or arithmetic), DataContainer.add/set_attrs mutate what they are given.",
         "technique": "typestate/history analysis: must-def / exposed-read dataflow across calls, ownership (borrowed vs fresh) provenance, dominators",
@@ -153,7 +153,7 @@ CLAIMS = {
         "draw exists and generator constructors are seeded; every callee taking random_state receives it wherever a seed is in scope "
         "(unless pinned to the exact solver); each match on the solver has exactly the documented cases plus a raising default; the "
         "sign multiplier is computed from VT along the feature axis and multiplies U and V; the two wrappers agree on solver keyword "
-        "sets, on the svds re-sort and on the canonical threshold count n_pre - #(cum >= f) + 1 with N-1/ddof=1. Only the number of modes, the seed (and svds' solver) are imposed over the user's solver_kwargs, everything else the wrappers set is a default the user's dict overrides; the exact solver runs exactly when the solver policy flag says so. No generator object created in a constructor is kept on the model or handed to the helper objects it builds.",
+        "sets, on the svds re-sort and on the canonical threshold count n_pre - #(cum >= f) + 1 with N-1/ddof=1. Only the number of modes, the seed (and svds' solver) are imposed over the user's solver_kwargs, everything else the wrappers set is a default the user's dict overrides; the exact solver runs exactly when the solver policy flag says so. No generator object created in a constructor is kept on the model or handed to the helper objects it builds. A seed is never tested for truth (0 is a valid seed).",
         "note": "Necessary structural clauses only. Not decided: minimality of the threshold count as arithmetic on values, agreement of "
         "exact and randomised results, bit-identity as values. Trusted: table of solver seed keywords (sklearn/scipy/dask APIs).",
         "technique": "def-use provenance through dict merges and tuple unpacking, call-site parameter binding, match exhaustiveness, sibling cross-check of extracted facts",
@@ -174,7 +174,7 @@ CLAIMS = {
         "its uses); Scaler.transform's arithmetic with fitted arrays is dominated by a raising dimension check; 30+ role guards exist, raise under the "
         "right condition and precede the use they protect: n_modes sanity (both SVD wrappers), init_rank_reduction range, rank, negative alpha, unknown "
         "solver, item counts, transform dimensions / feature coordinates, empty dims, MultiIndex, name clash, 2-D dims, dim type, 'X or Y required', "
-        "cross-set sample count, concatenator and multi-set view validation. Every fitted array Scaler.transform combines with the data is covered by the dimension check; init_rank_reduction is validated exactly when n_modes is a variance fraction; the bounds of the n_modes validation (int < 1, float outside (0, 1], other strings) and the Stacker's container-type check are in place.",
+        "cross-set sample count, concatenator and multi-set view validation. Every fitted array Scaler.transform combines with the data is covered by the dimension check; init_rank_reduction is validated exactly when n_modes is a variance fraction; the bounds of the n_modes validation (int < 1, float outside (0, 1], other strings) and the Stacker's container-type check are in place. In every _inverse_transform_algorithm the stored array contracted with a score argument is selected by that argument's own mode labels.",
         "note": "Necessary structural clauses only. Not decided: which exception type; that no numbers come out for every malformed call; rejections that "
         "xarray itself performs (unknown dimension names / mode labels).",
         "technique": "must-precede (dominator) analysis of guards, raise-condition role matching, call-site binding",
@@ -194,7 +194,7 @@ CLAIMS = {
         "from the seed parameter, draws n_samples out of n_samples with replacement, the draw selects along the sample dimension of the model's "
         "preprocessed data, the member is fitted on that resample and projects the original data; the alignment sign derives from member and model "
         "scores along samples and multiplies both components and scores; members are labelled 1..n_bootstraps on all four results; the model's arrays "
-        "are stored as copies and the model's objects are not re-fitted. The generator is re-created from the seed inside fit; the four results are labelled n = 1..n_bootstraps (through helpers).",
+        "are stored as copies and the model's objects are not re-fitted. The generator is re-created from the seed inside fit; the four results are labelled n = 1..n_bootstraps (through helpers). The member model's effective constructor switches: center True, standardize / use_coslat False.",
         "note": "Necessary structural clauses only. Not decided: that members are EOFs of the resample numerically, non-negative correlation, variance bounds.",
         "technique": "def-use provenance of the resampling pipeline (seed, draw, selection, fit, projection), ownership provenance",
     },
